@@ -294,8 +294,10 @@ impl<'a, F: Field> AddAssign<(F, &'a Self)> for SparseMultilinearExtension<F> {
                 "trying to add non-zero polynomial with different number of variables"
             );
         }
+        // only non-zero evaluations are stored (`f` may be zero)
         let ev: Vec<_> = cfg_iter!(other.evaluations)
             .map(|(i, v)| (*i, f * v))
+            .filter(|(_, v)| !v.is_zero())
             .collect();
         let other = Self {
             num_vars: other.num_vars,
